@@ -196,6 +196,8 @@ def run_c04(tier):
     jobs += [{'kind': 'aggregation-large', 'seed': vlib.jseed(seed, 7000 + k), 'case': {}} for k in range(2 if tier == 'quick' else 24)]
     # key objects of every provenance (incl. the public key shares of threshold key generation and of a DKG run)
     jobs += [{'kind': 'aggregation-origins', 'seed': vlib.jseed(seed, 8000 + k), 'case': {}} for k in range(4 if tier == 'quick' else 40)]
+    # private-key aggregation on scalars at the word boundaries of a multi-limb accumulator, every order
+    jobs += [{'kind': 'aggregation-scalars', 'seed': vlib.jseed(seed, 9000 + k), 'case': {}} for k in range(2 if tier == 'quick' else 12)]
     execute(ck, 'C04', jobs)
     for cs in cases:
         ck.case(vlib.digest([cs['keys'], cs['cut']]), len(cs['keys']) > 1)
